@@ -692,6 +692,29 @@ def special_programs():
     add('zero-literal-muldiv', PRELUDE + 'contract A { function f(uint amount) public returns (uint) { return amount * 0 + amount / 0 + 0 * amount + 2 * 0; } }')
     add('call-options-args', PRELUDE + 'contract A { function f(address to, bytes32 s) public { (bool ok, ) = to.call{value: msg.value, gas: 5000}(""); '
         'C c = new C{salt: s}(); this.g{value: 1}(2); } function g(uint) public payable {} }')
+    add('pragma-two-spaces', 'pragma  solidity 0.8.3;\ncontract A { using SafeMath for uint; function f(uint z) public { require(z > 0, "x"); '
+        'require(z > 1, "this message is definitely longer than thirty-two bytes"); z = z.add(2); } }')
+    add('pragma-tab', 'pragma\tsolidity ^0.8.10;\ncontract A { using SafeMath for uint; function f(uint z) public { require(z > 0, "x"); z = z.add(2); } }')
+    add('pragma-newline', 'pragma\nsolidity\n0.7.6;\ncontract A { using SafeMath for uint; function f(uint z) public { require(z > 0, "x"); '
+        'require(z > 1, "this message is definitely longer than thirty-two bytes"); z = z.add(2); } }')
+    add('pragma-comment-between', 'pragma /* c */ solidity 0.8.4;\ncontract A { function f(uint z) public { require(z > 0, "x"); } }')
+    add('interface-members', PRELUDE + 'interface IVault {\n  function _deposit(uint256 a) external;\n  function withdraw(uint256 a) external payable;\n'
+        '  struct S { uint128 a; uint256 b; uint128 c; }\n  event E(uint indexed q);\n  error Er(uint q);\n  type T is uint64;\n}\n'
+        'abstract contract AV { function _x() public virtual; uint public _pub; }\nlibrary LV { function _y() public { } struct S2 { uint8 a; uint256 b; uint8 c; } }')
+    add('nested-type-definitions', PRELUDE + 'type Price is uint128;\ncontract C { type Wad is uint256; function f() public {} }\nlibrary L { type OrderId is bytes32; }\n'
+        'interface I { type Late is uint64; }')
+    add('same-struct-names', PRELUDE + 'contract A { struct Order { uint128 a; uint256 b; uint128 c; } }\ncontract B { struct Order { uint128 a; uint128 c; uint256 b; } }\n'
+        'contract C2 { struct Order { uint128 a; uint256 b; uint128 c; } }\nstruct Order { uint256 b; uint128 a; uint128 c; }')
+    add('same-struct-names-rev', PRELUDE + 'contract B { struct Order { uint128 a; uint128 c; uint256 b; } }\ncontract A { struct Order { uint128 a; uint256 b; uint128 c; } }')
+    add('memory-params-multiline', PRELUDE + 'contract A {\n  function f(\n    uint[] memory a,\n    string memory b,\n    bytes\n      memory c\n  ) public returns (uint) { return a.length; }\n'
+        '  function g(Lib.VeryLongStructNameForWrapping\n      memory p, uint[] memory q) external { q[0] = 1; }\n}')
+    add('modifier-same-names', PRELUDE + 'contract Registry { address owner; modifier auth() { require(msg.sender == owner, "no"); _; } function kill() external auth { selfdestruct(payable(owner)); } }\n'
+        'contract Timelock { uint delay; modifier auth() { require(delay > 0, "no"); _; } function kill() external auth { selfdestruct(payable(address(0))); } }')
+    add('try-no-returns', PRELUDE + 'contract A { uint x; function f(IERC20 t, address a) public {\n  try t.transfer(a, 1) { x = x + 1; for (uint i; i < 3; ++i) { } unchecked { ++x; } } catch { x = x / 2 * 3; t.approve(a, 1); }\n'
+        '  try this.g() { } catch Error(string memory r) { x = x - 1; } catch (bytes memory b) { x /= 2 * 3; selfdestruct(payable(a)); }\n'
+        '  try this.g() returns (uint v) { x = v + 2; } catch Panic(uint c) { x = c * 4; }\n} function g() external returns (uint) { return 1; } }')
+    add('deep-else-if', PRELUDE + 'contract D { uint last; uint never; function dispatch(uint s) public {\n  ' +
+        ' else '.join('if (s == %d) { s = s + %d; }' % (i, i) for i in range(300)) + ' else { last = 1; }\n} }')
     add('free-functions', PRELUDE + 'function min(uint a, uint b) pure returns (uint) { return a < b ? a : b; }\n'
         'function twice(uint a) pure returns (uint) { return min(a, a) * 2; }\ncontract C { function f() public {} }\nfunction max(uint a, uint b) pure returns (uint) { return a >= b ? a : b; }')
     return P
